@@ -21,6 +21,7 @@ import (
 	"github.com/metal-toolbox/audito-maldito/internal/health"
 	"github.com/metal-toolbox/audito-maldito/processors/sshd"
 
+	"github.com/metal-toolbox/audito-maldito/internal/verif/collide"
 	"github.com/metal-toolbox/audito-maldito/internal/verif/mc"
 )
 
@@ -931,6 +932,17 @@ func garbage(k int, longLen int, s sets, light bool, emit func(item)) {
 					emit(item{x: Exp{Line: strings.Join(cp, ""), Form: "word-blanked"}, pid: "4711"})
 				}
 			}
+			// one byte written as an escape sequence (sshd's vis(3) octal, rsyslog's control-character escape, ...):
+			// the first byte of every token and every blank between tokens. The line is what it is - an escape is
+			// not the byte it stands for, neither in the keyword nor in a value
+			for i := 0; i < len(l); i++ {
+				if !(l[i] == ' ' || i == 0 || l[i-1] == ' ') {
+					continue
+				}
+				for _, enc := range escapeForms {
+					emit(item{x: Exp{Line: l[:i] + fmt.Sprintf(enc, l[i]) + l[i+1:], Form: "byte-escaped"}, pid: "4711"})
+				}
+			}
 			for i := 1; i < len(parts); i++ { // every connective / separator inserted at every token boundary
 				for _, c := range connectives {
 					ins := strings.Join(parts[:i], " ") + " " + strings.TrimSpace(c) + " " + strings.Join(parts[i:], " ")
@@ -962,10 +974,15 @@ func garbage(k int, longLen int, s sets, light bool, emit func(item)) {
 	})
 }
 
+// escapeForms: how one byte may be written as printable text
+var escapeForms = []string{`\%03o`, `#%03o`}
+
 func runGarbage(t *testing.T, run *mc.Run, prop string) int {
 	k, long := 3, 2000
+	escapeForms = []string{`\%03o`, `#%03o`}
 	if run.Thorough() {
 		k, long = 4, 10000
+		escapeForms = []string{`\%03o`, `#%03o`, `\x%02x`, `%%%02X`, `\u%04x`, `&#%d;`}
 	}
 	if prop == "C19" && !run.Thorough() {
 		k = 2
@@ -1313,8 +1330,32 @@ func runC17(run *mc.Run) int {
 	close(pjobs)
 	pwg.Wait()
 	n += npiped
+	// names chosen so that the whole line has the 32-bit checksum (FNV-1a, FNV-1, CRC-32) of an earlier line of the
+	// same form from another peer - found by meet-in-the-middle in 0.1 s, so well within a client's means: the
+	// earlier line, then the colliding one, on one processor; the second attempt is recorded with ITS peer
+	for _, h := range collide.Hashes {
+		for _, f := range []struct{ form, head, tail string }{
+			{"invalid-user", "Invalid user ", ""},
+			{"failed-password", "Failed password for ", " ssh2"},
+			{"failed-password-invalid", "Failed password for invalid user ", " ssh2"},
+			{"max-auth-attempts", "maximum authentication attempts exceeded for ", " ssh2"},
+			{"max-auth-attempts-invalid", "maximum authentication attempts exceeded for invalid user ", " ssh2"},
+		} {
+			first := f.head + "alice from 10.0.0.1 port 1" + f.tail
+			x := h.Fill(first, f.head+"mallory-", " from 203.0.113.77 port 65535"+f.tail)
+			if x == "" {
+				continue
+			}
+			second := f.head + "mallory-" + x + " from 203.0.113.77 port 65535" + f.tail
+			r := newRig(4)
+			judge(item{x: Exp{Form: f.form, Line: first, Source: "10.0.0.1", Port: "1", LoggedAs: "alice"}, pid: "4711"}, r.run(true, "4711", first, ""), "")
+			judge(item{x: Exp{Form: f.form, Line: second, Source: "203.0.113.77", Port: "65535", LoggedAs: "mallory-" + x}, pid: "4712"}, r.run(true, "4712", second, ""), "after-a-line-with-the-same-"+h.Name+"-checksum:")
+			n += 2
+			sm.add(f.form+"/checksum-collision", second)
+		}
+	}
 	cov := mc.Coverage{Level: "exploration", Evaluations: int(n), Distinct: int(embedded), Exhaustive: complete, Samples: sm.samples,
-		Rule:  fmt.Sprintf("user names = every string of <=%d tokens over %q, every string of <=%d tokens over those plus %d fragments of sshd's own message grammar (' [preauth]', ': ', 'Invalid user ', ...), capped at 100 bytes (sshd's %%.100s), plus the empty name and hand-made forgeries, x 4 peers (IPv4, IPv6, IPv6 with zone, UNKNOWN) x 2 ports x 5 message forms, through the real ProcessSshdLogEntry, and (names of <=3 / <=2 tokens without CR) again as lines written to a real FIFO read by the real syslog ingester; oracle: exactly one failed UserLogin whose source and port are the ones sshd appended. distinct_nontrivial = lines whose user name embeds ' from ' or ' port '", k, nameTokens, kext, len(extTokens)),
+		Rule:  fmt.Sprintf("user names = every string of <=%d tokens over %q, every string of <=%d tokens over those plus %d fragments of sshd's own message grammar (' [preauth]', ': ', 'Invalid user ', ...), capped at 100 bytes (sshd's %%.100s), plus the empty name and hand-made forgeries, x 4 peers (IPv4, IPv6, IPv6 with zone, UNKNOWN) x 2 ports x 5 message forms, through the real ProcessSshdLogEntry, and (names of <=3 / <=2 tokens without CR) again as lines written to a real FIFO read by the real syslog ingester; plus, per form, a line whose name makes its FNV-1a / FNV-1 / CRC-32 checksum equal that of the line processed just before it from another peer; oracle: exactly one failed UserLogin whose source and port are the ones sshd appended. distinct_nontrivial = lines whose user name embeds ' from ' or ' port '", k, nameTokens, kext, len(extTokens)),
 		Extra: map[string]any{"lines_per_form": sm.forms, "token_bound": k}}
 	return run.Finish(cov)
 }
